@@ -502,6 +502,33 @@ func (e *Exec) evalCall(env *Env, x *ast.CallExpr) Val {
 		return vStr(sx("str.from_code", arg(0).t()))
 	case "code":
 		return vInt(sx("str.to_code", sx("str.at", asStr(arg(0)), arg(1).t())))
+	case "errconst":
+		// a distinct non-nil error value (package-level error variables)
+		return vRef(sx("-", arg(0).t()))
+	case "mhas", "mget":
+		m := arg(0)
+		mt, ok := m.T.Underlying().(*types.Map)
+		if !ok {
+			return env.fail("%s: not a map", name)
+		}
+		dn, ds, vn, vsrt, ok := e.mapArrs(mt)
+		if !ok {
+			return env.fail("%s: unsupported map type %v", name, m.T)
+		}
+		k := arg(1)
+		if name == "mhas" {
+			return vBool(sAnd(sNot(sEq(m.t(), "0")), sx("select", e.sel(env.st, dn, ds, m.t()), k.t())))
+		}
+		raw := sx("select", e.sel(env.st, vn, vsrt, m.t()), k.t())
+		switch kindOf(mt.Elem()) {
+		case KInt:
+			return vInt(raw).withT(mt.Elem())
+		case KBool:
+			return vBool(raw).withT(mt.Elem())
+		case KStr:
+			return vStr(raw).withT(mt.Elem())
+		}
+		return vRef(raw).withT(mt.Elem())
 	case "sel":
 		return vInt(sx("select", arg(0).t(), arg(1).t()))
 	case "upd":
@@ -590,8 +617,21 @@ func (e *Exec) evalCall(env *Env, x *ast.CallExpr) Val {
 			}
 		}
 		return e.elemPure(sx("select", e.seqTermOf(env, v), arg(1).t()), et)
-	case "held":
-		return vBool(boolStr(env.st != nil && env.st.held[exprString(x.Args[0])]))
+	case "held", "rheld":
+		sel, ok := x.Args[0].(*ast.SelectorExpr)
+		if !ok {
+			return env.fail("held(x.mu) expects a field selector")
+		}
+		base := e.evalExpr(env, sel.X)
+		_, T := structOf(base.T)
+		if T == nil {
+			return env.fail("held: %s is not a struct pointer", exprString(sel.X))
+		}
+		key := fieldArrName(T, sel.Sel.Name) + "@" + base.t()
+		if name == "rheld" {
+			key = "r:" + key
+		}
+		return vBool(boolStr(env.st != nil && env.st.held[key]))
 	case "unbox_int":
 		return vInt(e.sel(env.st, "BOX_Int", "Int", arg(0).t()))
 	case "unbox_string":
